@@ -419,6 +419,8 @@ def jobs(tier):
                     continue
                 if restrict and cb[0] != "L" and ca[0] != "L":
                     continue
+                if m == n and ca > cb:
+                    continue  # the property is symmetric in the two sequences
                 js.append(Job(f"names[{'.'.join(ca)}|{'.'.join(cb)}]", job_names, A=ca, B=cb))
     # long names around the 63-char boundary and beyond
     for n, c in ((9, "x6"), (10, "x6"), (11, "x5"), (13, "x4"), (14, "x5")):
